@@ -278,11 +278,11 @@ func kindsOK(k map[string]bool) (bool, string) {
 }
 
 func checkC06(c *Ctx, r *Report, tier string) {
-	r.Rule("C06.R1", "every iterator is bounded by the group: the options value given to NewIterator has its Prefix stored, before the call, from a constructor that embeds the receiver's group id", 4)
-	r.Rule("C06.R2", "key provenance: every key handed to txn.Get/Set, batch.Set/Delete or iterator.Seek in a method of the log store derives from a group-embedding key constructor or from Item().Key() of a prefix-bounded iterator (the package-level node-id accessors use a constant key: named exception)", 11)
+	r.Rule("C06.R1", "every iterator is bounded by the group: the options value given to NewIterator has its Prefix stored, before the call, from a constructor that embeds the receiver's group id", 1)
+	r.Rule("C06.R2", "key provenance: every key handed to txn.Get/Set, batch.Set/Delete or iterator.Seek in a method of the log store derives from a group-embedding key constructor or from Item().Key() of a prefix-bounded iterator (the package-level node-id accessors use a constant key: named exception)", 6)
 	r.Rule("C06.R3", "DeleteGroup covers every key family: for each key constructor that reaches a Set, the call tree of DeleteGroup contains a Delete of that family or a prefix sweep whose prefix is a prefix of the family", 3)
 	r.Rule("C06.R4", "batch commit discipline: Cancel deferred, every return after batch creation returns Flush()'s value or a tested error, no batch result discarded", 8)
-	r.Rule("C06.R5", "wipe before write: within one batch function no full-range sweep of the entry family is reachable after a Set into the same family (Badger's batch is last-write-wins per key and the sweep is computed from the committed view); a wipe also discards the cached last index", 4)
+	r.Rule("C06.R5", "wipe before write: within one batch function no full-range sweep of the entry family is reachable after a Set into the same family (Badger's batch is last-write-wins per key and the sweep is computed from the committed view); a wipe also discards the cached last index", 2)
 	r.Rule("C06.R7", "the key codec is order preserving and agrees with its decoder: the entry index is written big-endian at the offsets where the decoder reads it big-endian, behind the group id", 2)
 	r.Rule("C06.R8", "boundary conditions agree with the reference MemoryStorage: Entries returns ErrCompacted iff lo < first and ErrUnavailable iff hi > last+1; Term returns ErrCompacted iff i < first-1; CreateSnapshot returns ErrSnapOutOfDate iff i < first; the size limit never drops the first entry", 5)
 	w := newWal(c)
@@ -471,11 +471,11 @@ func checkC06(c *Ctx, r *Report, tier string) {
 	c06R7(c, r, w)
 	// R8
 	c06R8(c, r, w)
-	r.Rule("C06.R6", "cache writes follow disk writes: every path from an entry write to a successful return updates (or discards) the cached last index", 3)
+	r.Rule("C06.R6", "cache writes follow disk writes: every path from an entry write to a successful return updates (or discards) the cached last index", 1)
 	walCacheFollowsWrites(c, r, "C06.R6")
 	r.Rule("C06.R9", "compaction keeps the snapshot's anchor entry (sweep bound exclusive, bound = snapshot index)", 2)
 	walCompactionKeepsAnchor(c, r, "C06.R9")
-	r.Rule("C06.R10", "an iterator's key buffer is never retained: Item().Key() is copied (string conversion) or only read before the iterator advances", 4)
+	r.Rule("C06.R10", "an iterator's key buffer is never retained: Item().Key() is copied (string conversion) or only read before the iterator advances", 2)
 	walIteratorKeyNotRetained(c, r, "C06.R10")
 }
 
@@ -794,12 +794,16 @@ func c06R8(c *Ctx, r *Report, w *walInfo) {
 		}
 		for _, ifi := range allIfs(f) {
 			b, ok := ifi.Cond.(*ssa.BinOp)
-			if !ok || b.Op != token.GTR {
+			if !ok || (b.Op != token.GTR && b.Op != token.LSS) {
 				continue
 			}
-			// size > maxSize : rhs loads the maxSize cell / parameter
+			// size > maxSize (or maxSize < size): one side loads the maxSize cell / parameter
+			maxSide := b.Y
+			if b.Op == token.LSS {
+				maxSide = b.X
+			}
 			isMax := false
-			for _, o := range origins(b.Y, originOpt{}) {
+			for _, o := range origins(maxSide, originOpt{}) {
 				if p, ok := o.(*ssa.Parameter); ok && strings.Contains(strings.ToLower(p.Name()), "max") {
 					isMax = true
 				}
@@ -815,13 +819,25 @@ func c06R8(c *Ctx, r *Report, w *walInfo) {
 			// on the true side another test on a boolean "first" flag must stand between this test and the break
 			tb := succOn(ifi, true)
 			okFirst := false
-			if nx := condOf(tb); nx != nil {
-				if u, ok := nx.Cond.(*ssa.UnOp); ok && u.Op == token.NOT {
-					okFirst = true
-				} else if _, ok := nx.Cond.(*ssa.Phi); ok {
-					okFirst = true
-				} else if _, ok := nx.Cond.(*ssa.UnOp); ok {
-					okFirst = true
+			isFlag := func(v ssa.Value) bool {
+				if u, ok := v.(*ssa.UnOp); ok && u.Op == token.NOT {
+					v = u.X
+				}
+				if b, ok := v.Type().Underlying().(*types.Basic); !ok || b.Kind() != types.Bool {
+					return false
+				}
+				switch v.(type) {
+				case *ssa.Phi, *ssa.UnOp:
+					return true // a boolean loop variable (φ) or a captured boolean cell
+				}
+				return false
+			}
+			if nx := condOf(tb); nx != nil && isFlag(nx.Cond) {
+				okFirst = true // size test first, then the flag
+			}
+			for _, t := range allIfs(f) {
+				if t != ifi && isFlag(t.Cond) && (guardedBy(ifi.Block(), t, true) || guardedBy(ifi.Block(), t, false)) {
+					okFirst = true // flag first, then the size test
 				}
 			}
 			r.Check(okFirst, "C06.R8", fnName(f), "size-limit-keeps-first", c.Pos(ifi.Cond.Pos()), "the size-limit break is conditional on at least one entry having been collected")
